@@ -77,7 +77,13 @@ unsafe impl GlobalAlloc for Alloc {
     unsafe fn alloc(&self, layout: Layout) -> *mut u8 {
         let size = layout.size();
         let limit = self.limit.load(Ordering::Acquire);
-        let new_size = self.used.fetch_add(size, Ordering::Acquire) + size;
+        // A request that can never fit is refused before it is charged: two
+        // such requests in flight at once would wrap the counter around and
+        // let a third one through.
+        if size > limit {
+            return ptr::null_mut();
+        }
+        let new_size = self.used.fetch_add(size, Ordering::Acquire).wrapping_add(size);
         if new_size <= limit {
             self.max.fetch_max(new_size, Ordering::Relaxed);
             let result = self.parent.alloc(layout);
@@ -100,7 +106,13 @@ unsafe impl GlobalAlloc for Alloc {
     unsafe fn alloc_zeroed(&self, layout: Layout) -> *mut u8 {
         let size = layout.size();
         let limit = self.limit.load(Ordering::Acquire);
-        let new_size = self.used.fetch_add(size, Ordering::Acquire) + size;
+        // A request that can never fit is refused before it is charged: two
+        // such requests in flight at once would wrap the counter around and
+        // let a third one through.
+        if size > limit {
+            return ptr::null_mut();
+        }
+        let new_size = self.used.fetch_add(size, Ordering::Acquire).wrapping_add(size);
         if new_size <= limit {
             self.max.fetch_max(new_size, Ordering::Relaxed);
             let result = self.parent.alloc_zeroed(layout);
@@ -119,7 +131,13 @@ unsafe impl GlobalAlloc for Alloc {
         let (old_size, new_size) = (old_layout.size(), new_layout.size());
 
         let limit = self.limit.load(Ordering::Acquire);
-        let new_used = self.used.fetch_add(new_size, Ordering::Acquire) + new_size;
+        // A request that can never fit is refused before it is charged: two
+        // such requests in flight at once would wrap the counter around and
+        // let a third one through.
+        if new_size > limit {
+            return ptr::null_mut();
+        }
+        let new_used = self.used.fetch_add(new_size, Ordering::Acquire).wrapping_add(new_size);
         if new_used <= limit {
             self.max.fetch_max(new_used, Ordering::Relaxed);
             let result = self.parent.realloc(ptr, old_layout, realloc_size);
